@@ -387,6 +387,7 @@ def run_program(m, scen, adp, prog):
     Returns the ndjson record for ApiTrace.tla."""
     pool = scen.pool()
     steps = []
+    truncated = False
     for n, call in enumerate(prog, start=1):
         name, params, res_kinds, rnd, mut = R.TABLE[call["f"] - 1]
         keys = [tuple(a) for a in call["args"]]
@@ -398,7 +399,10 @@ def run_program(m, scen, adp, prog):
         passed = [to_form(p[0], o, f, oth) for p, o, f, oth in zip(params, objs, call["forms"], others)]
         stacked = any(is_stacked(p[0], o, f) for p, o, f in zip(params, objs, call["forms"]))
         noncanon = list(call["forms"]) != [p[2] for p in params] and "n" not in [f for f, p in zip(call["forms"], params) if f != p[2]]
-        backup = copy.deepcopy(objs) if noncanon else None
+        try:
+            backup = copy.deepcopy(objs) if noncanon else None
+        except Exception:
+            backup, noncanon = None, False
         before = [fp(x) for x in passed]
         pool_before = {k: fp(pool[k]) for k in set(keys)}
         extra = [call["seed"]] if rnd else []
@@ -414,6 +418,14 @@ def run_program(m, scen, adp, prog):
         pool_after = {k: fp(pool[k]) for k in set(keys)}
         agree = True
         detail = ""
+        if results is None and noncanon:
+            # an exception is a C19 matter only as a FORM disagreement: the canonical form of the same input must raise too
+            try:
+                canon_passed = [to_form(p[0], o, p[2], oth) for p, o, oth in zip(params, backup, others)]
+                adp[name](*canon_passed, *extra)
+                agree, detail = False, "raises in this form (%s) but the canonical form of the same input is accepted" % exc
+            except Exception:
+                pass
         if results is not None and noncanon:
             try:
                 canon_passed = [to_form(p[0], o, p[2], oth) for p, o, oth in zip(params, backup, others)]
@@ -457,7 +469,11 @@ def run_program(m, scen, adp, prog):
                 if not schema_ok(kd, r, passed):
                     sch = False
                     detail = detail or "result %d does not carry the schema of %s" % (j, kd)
+        if results is None:
+            truncated = True
         steps.append(dict(f=call["f"], name=name, args=[list(k) for k in keys], forms=list(call["forms"]), seed=call["seed"],
                           before=before, after=after, pool_before=[pool_before[k] for k in keys], pool_after=[pool_after[k] for k in keys],
                           res=res_fp, agree=bool(agree), schema=bool(sch), exc=exc, detail=detail, stacked=bool(stacked)))
-    return dict(steps=steps)
+        if truncated:
+            break            # later calls may depend on the results this call did not produce
+    return dict(steps=steps, truncated=truncated)
